@@ -288,6 +288,181 @@ theorem whole_roundtrip_noauth_abs (a b : Text) (ha : Matches G.full a)
   unfold pathKey
   rw [hPn.2, hPn.1, hpa]
 
+
+omit ok okp in
+/-- §5.2.4 (with Errata 4547) on a relative path that is already normalised: the normalised sequence
+written out, unless it ends in an unresolved `..` (which §5.2.4 closes with an empty segment) -/
+theorem removeDots_of_realises_rel (v p : Text) (hv : isAbs v = false) (hp : isAbs p = false)
+    (hr : realises v (nsegs p) = true) (hlast : (nsegs p).getLast? ≠ some segDotDot) :
+    removeDots v = joinSlash (nsegs p) := by
+  have hsg := realises_cases hr
+  have hidem : nsegsOf false (nsegs p) = nsegs p := by
+    unfold nsegs; rw [hp]; exact nsegsOf_idem false _
+  have hnd : segDot ∉ nsegs p := nsegsOf_noDot _ _
+  have hn : nsegs v = nsegs p := by
+    have : nsegsOf (isAbs v) (segs v) = nsegs p := by
+      rw [hv]
+      rcases hsg with h | h
+      · rw [h, hidem]
+      · rw [h, nsegsOf_cons_dot, hidem]
+    exact this
+  have hde : dotEnd v = false := by
+    unfold dotEnd
+    rcases hsg with h | h
+    · rw [h]
+      cases hl : (nsegs p).getLast? with
+      | none => rfl
+      | some s =>
+        have hm : s ∈ nsegs p := List.mem_of_getLast? hl
+        have h1 : s ≠ segDot := fun e => hnd (e ▸ hm)
+        have h2 : s ≠ segDotDot := fun e => hlast (by rw [hl, e])
+        simp [h1, h2]
+    · rw [h]
+      have hLne : nsegs p ≠ [] := by
+        intro e
+        rw [e] at hr h
+        simp only [realises, Bool.or_eq_true, decide_eq_true_eq, Bool.and_eq_true] at hr
+        rcases hr with hr | ⟨hns, _⟩
+        · rw [hr] at h; cases h
+        · simp [needsShieldHead] at hns
+      have hl2 : (segDot :: nsegs p).getLast? = (nsegs p).getLast? := getLast?_shield hLne
+      rw [hl2]
+      cases hl : (nsegs p).getLast? with
+      | none => rfl
+      | some s =>
+        have hm : s ∈ nsegs p := List.mem_of_getLast? hl
+        have h1 : s ≠ segDot := fun e => hnd (e ▸ hm)
+        have h2 : s ≠ segDotDot := fun e => hlast (by rw [hl, e])
+        simp [h1, h2]
+  unfold removeDots normTarget render
+  rw [hn, hde, hv]
+  simp
+
+/-- … and for every target without authority whose path is relative (or empty), whose first
+normalised segment is not empty and whose normalised segments do not end in an unresolved `..`
+(`urn:a/b`, `s:a/../b`, `s:../x`, `s:` relative to anything that takes the fallback) -/
+theorem whole_roundtrip_noauth_rel (a b : Text) (ha : Matches G.full a)
+    (haa : (split a).authority = none) (hpa : isAbs (split a).path = false)
+    (hhd : (nsegs (split a).path).head? ≠ some [])
+    (hlast : (nsegs (split a).path).getLast? ≠ some segDotDot) :
+    ∃ w t, Ref.whole a = some w ∧ Ref.resolve w b = some t ∧ key t = key a := by
+  have haR : Matches G.reference a := Matches.altL ha
+  obtain ⟨vA, wA⟩ := split_valid G ok a haR
+  obtain ⟨sa, hsa⟩ : ∃ sa, (split a).scheme = some sa := by
+    have := ((C02.full_iff_scheme G ok a).mp ha).2
+    exact Option.isSome_iff_exists.mp this
+  have hptA : PathText (split a).path := pathText_of_wf _ wA
+  obtain ⟨h', e, hv, hsp, hview⟩ := path_session_valid G ok okp a haR [.norm]
+    (by intro op hop; simp at hop; subst hop; trivial)
+  have e' : (Ref.path_mut a).normalize = some h' := by
+    simp only [C10.pathRun, C10.pathStep] at e
+    cases hp : (Ref.path_mut a).normalize with
+    | none => rw [hp] at e; cases e
+    | some x => rw [hp] at e; simp at e; rw [e]
+  have hw : Ref.whole a = some h'.buffer := by simp [Ref.whole, e']
+  simp only [List.foldl_cons, List.foldl_nil, C10.opView, haa, Option.isSome_none] at hview
+  obtain ⟨v, hvdef⟩ : ∃ v, v = normView false false (split a).path := ⟨_, rfl⟩
+  have hview' : h'.view = v := by rw [hvdef, hview]; simp [hsa]
+  rw [hview'] at hsp
+  have hspw : split h'.buffer = { split a with path := v } := hsp
+  have hscw : (split h'.buffer).scheme = some sa := by rw [hspw]; exact hsa
+  have hauw : (split h'.buffer).authority = none := by rw [hspw]; exact haa
+  have hnv : nsegs v = nsegs (split a).path := by rw [hvdef]; exact nsegs_normView false false _ hptA
+  obtain ⟨hreal, habsv⟩ := normView_realises false false (split a).path hptA
+  rw [← hvdef] at hreal habsv
+  -- no shield is needed: the first normalised segment is not empty
+  have hns : needsShield false false (split h'.buffer).path = false := by
+    rw [hspw]
+    unfold needsShield
+    rw [hnv]
+    cases hL : nsegs (split a).path with
+    | nil => rfl
+    | cons first rest =>
+      rw [hL] at hhd
+      have hf : first ≠ [] := by
+        intro e; subst e; exact hhd rfl
+      have hfe : first.isEmpty = false := by cases first <;> simp_all
+      simp [hfe]
+  have hres := resolve_scheme_no_authority G ok b h'.buffer sa hv hscw hauw hns
+  refine ⟨h'.buffer, _, hw, hres, ?_⟩
+  have hT : resolveSpec b h'.buffer = ({
+      scheme := some sa, authority := none, path := removeDots v,
+      query := (split a).query, fragment := (split a).fragment } : Spec.Parts) := by
+    simp only [resolveSpec, transform, hspw, hsa, haa]
+  have hrd := removeDots_of_realises_rel v (split a).path (by rw [habsv, hpa]) hpa hreal hlast
+  have hns' : ∀ s ∈ nsegs (split a).path, cSlash ∉ s :=
+    fun s hs => segs_no_slash _ s (nsegsOf_subset _ _ s hs)
+  have hl : nsegs (split a).path ≠ [[]] := by
+    intro e; rw [e] at hhd; exact hhd rfl
+  have hPn : nsegs (removeDots v) = nsegs (split a).path ∧ isAbs (removeDots v) = false := by
+    rw [hrd]
+    by_cases hL : nsegs (split a).path = []
+    · rw [hL]; exact ⟨by decide, rfl⟩
+    · have hfaith : ∃ c r rest, nsegs (split a).path = (c :: r) :: rest := by
+        cases hL2 : nsegs (split a).path with
+        | nil => exact absurd hL2 hL
+        | cons first rest =>
+          cases first with
+          | nil => rw [hL2] at hhd; exact absurd rfl hhd
+          | cons c r => exact ⟨c, r, rest, rfl⟩
+      obtain ⟨hsg, hab2⟩ := segs_render false (nsegs (split a).path) hL hns' (by simpa using hfaith)
+      simp only [Bool.false_eq_true, if_false, List.nil_append] at hsg hab2
+      refine ⟨?_, hab2⟩
+      unfold nsegs at hsg hab2 ⊢
+      rw [hpa] at hsg hab2 ⊢
+      rw [hab2, hsg, nsegsOf_idem]
+  -- the target is well formed: its path does not begin with `//`
+  have hss : startsSS (removeDots v) = false := by
+    rw [hrd]
+    cases hL : nsegs (split a).path with
+    | nil => rfl
+    | cons first rest =>
+      rw [hL] at hhd hns'
+      cases first with
+      | nil => exact absurd rfl hhd
+      | cons c r =>
+        have hc : c ≠ cSlash := fun e => hns' (c :: r) List.mem_cons_self (e ▸ List.mem_cons_self)
+        obtain ⟨t, ht⟩ := joinSlash_head (c := c) (r := r) rest
+        rw [ht]
+        cases t <;> simp [startsSS, hc]
+  have hPpt : PathText (removeDots v) := by
+    rw [hrd]
+    intro c h
+    · have hall : ∀ x ∈ nsegs (split a).path, PathText x := by
+        intro x hx
+        have hm' := nsegsOf_subset _ _ x hx
+        exact fun c hc => hptA c (mem_of_mem_splitSlash' _ x (segs_subset_splitSlash G ok okp _ x hm') c hc)
+      have hj : ∀ (M : List Text), (∀ x ∈ M, PathText x) → ∀ c ∈ joinSlash M, c ≠ cQuest ∧ c ≠ cHash := by
+        intro M
+        induction M with
+        | nil => intro _ c hc; cases hc
+        | cons x xs ih =>
+          intro hM c hc
+          cases xs with
+          | nil => exact hM x List.mem_cons_self c hc
+          | cons y ys =>
+            simp only [joinSlash] at hc
+            rcases List.mem_append.mp hc with h3 | h3
+            · exact hM x List.mem_cons_self c h3
+            · rcases List.mem_cons.mp h3 with h3 | h3
+              · subst h3; decide
+              · exact ih (fun z hz => hM z (List.mem_cons_of_mem _ hz)) c h3
+      exact hj _ hall c h
+  have wfT0 := wf_snp sa (removeDots v) (wA.scheme sa hsa) hPpt hss
+  have wfT : WF ({
+      scheme := some sa, authority := none, path := removeDots v,
+      query := (split a).query, fragment := (split a).fragment } : Spec.Parts) :=
+    { scheme := wfT0.scheme, authority := wfT0.authority, path := wfT0.path, query := wA.query,
+      abempty := wfT0.abempty, noSS := wfT0.noSS, noColon := wfT0.noColon }
+  have hsT := Lemmas.split_recompose _ wfT
+  rw [hT]
+  unfold key
+  rw [hsT]
+  simp only [Option.map_none, haa, hsa]
+  congr 1
+  unfold pathKey
+  rw [hPn.2, hPn.1, hpa]
+
 end
 
 end IrefVerif.Lemmas
